@@ -267,6 +267,24 @@ func c01Case(c *core.Case) {
 			c.Count("layouts-agreed")
 		}
 	}
+	// the same scope spread over a chain of evaluation contexts (variables and
+	// functions divided between a root and a leaf context, names of the leaf
+	// shadowing decoys in the root, an empty context in between): names resolve
+	// through the chain, so the outcome is that of the flat context
+	for si, s := range scopes {
+		ctx := chainCtx(r, s)
+		o := c01Run(canon, 0, ctx)
+		c.Evals(1)
+		if o.parseErr {
+			break
+		}
+		if o.key(looses[si]) != firsts[si].key(looses[si]) {
+			c.SetInput(canon + "\nSCOPE: " + scopeStr(s))
+			c.Violation("context-chain-differs/"+ast.Shape(), fmt.Sprintf("%s evaluated in a chain of contexts that together define the scope gives %s (%s), in one flat context %s", trunc(canon, 300), trunc(o.key(false), 300), trunc(o.diags, 200), trunc(firsts[si].key(false), 300)), nil)
+			return
+		}
+		c.Count("context-chains-agreed")
+	}
 	// one parsed expression evaluated repeatedly (scope 0, scope 1, scope 0
 	// again): an evaluation leaves nothing behind in the syntax tree, so each
 	// result equals that of a freshly parsed expression in the same scope
@@ -343,6 +361,10 @@ var c01Directed = []c01Dir{
 	{`[1, 2][*]`, `cty.TupleVal([]cty.Value{cty.NumberIntVal(1), cty.NumberIntVal(2)})`, 0}, {`5[*]`, `cty.TupleVal([]cty.Value{cty.NumberIntVal(5)})`, 0}, {`null[*]`, `cty.EmptyTupleVal`, 0}, {`{a = 1}.*.a`, `cty.TupleVal([]cty.Value{cty.NumberIntVal(1)})`, 0},
 	{`[{a = [1, 2]}, {a = [3, 4]}][*].a[0]`, `cty.TupleVal([]cty.Value{cty.NumberIntVal(1), cty.NumberIntVal(3)})`, 0}, {`[{a = [1, 2]}, {a = [3, 4]}].*.a[0]`, `cty.TupleVal([]cty.Value{cty.NumberIntVal(1), cty.NumberIntVal(2)})`, 0},
 	{`-[1][0]`, `cty.NumberIntVal(-1)`, 0}, {`!{a = true}.a`, `cty.False`, 0}, {`[1, 2].1`, `cty.NumberIntVal(2)`, 0}, {`1e3`, `cty.NumberIntVal(1000)`, 0}, {`0.5 + 0.25`, `cty.NumberFloatVal(0.75)`, 0}, {`1.0 == 1`, `cty.True`, 0},
+	// an object indexed with a number: the key is converted to the attribute name
+	{`{"0" = "zero", "1" = true}[0]`, `cty.StringVal("zero")`, 0}, {`{"0" = "zero", "1" = true}.1`, `cty.True`, 0}, {`{7 = "seven"}[7]`, `cty.StringVal("seven")`, 0}, {`{"7" = "seven"}[3 + 4]`, `cty.StringVal("seven")`, 0},
+	{`[for k in [0, 1]: {"0" = "a", "1" = "b"}[k]]`, `cty.TupleVal([]cty.Value{cty.StringVal("a"), cty.StringVal("b")})`, 0}, {`{"0" = "zero"}[1]`, `ERR`, 0}, {`{a = 1}[0]`, `ERR`, 0}, {`{"true" = 1}[true]`, `cty.NumberIntVal(1)`, 0},
+	{`[{"0" = "x"}][*][0]`, `cty.TupleVal([]cty.Value{cty.StringVal("x")})`, 0}, {`{"10" = "ten"}[10.0]`, `cty.StringVal("ten")`, 0}, {`{"0.5" = "half"}[0.5]`, `cty.StringVal("half")`, 0},
 	{`123456789012345678901234567890 + 1`, `cty.NumberIntVal(1.23456789012345678901234567891e+29)`, 0}, {`7 % 3`, `cty.NumberIntVal(1)`, 0}, {`2 < 1 || 3 >= 3`, `cty.True`, 0},
 }
 
